@@ -78,17 +78,17 @@ func c02PrimCheck(n *Node, got any) (sig, detail string) {
 			}
 			return "primitive-value-mismatch type=" + n.TypeName, fmt.Sprintf("json=%q got=%q", jv, v)
 		case system.Date:
-			if ok, why := temporalEqual(jv, v.String(), false); !ok {
+			if ok, why := temporalEqualSys(jv, v.String(), false); !ok {
 				return "temporal-mismatch type=" + n.TypeName + " " + why, fmt.Sprintf("json=%q got=%q", jv, v.String())
 			}
 			return "", ""
 		case system.DateTime:
-			if ok, why := temporalEqual(jv, v.String(), false); !ok {
+			if ok, why := temporalEqualSys(jv, v.String(), false); !ok {
 				return "temporal-mismatch type=" + n.TypeName + " " + why, fmt.Sprintf("json=%q got=%q", jv, v.String())
 			}
 			return "", ""
 		case system.Time:
-			if ok, why := temporalEqual(jv, v.String(), true); !ok {
+			if ok, why := temporalEqualSys(jv, v.String(), true); !ok {
 				return "temporal-mismatch type=" + n.TypeName + " " + why, fmt.Sprintf("json=%q got=%q", jv, v.String())
 			}
 			return "", ""
@@ -125,10 +125,6 @@ func c02Compare(ctx *Ctx, src string, out evalOut, want []*Node, viaChoiceOther 
 		fail("panic@"+out.Panic, out.Stack)
 		return
 	case "cerror":
-		if lastName == "div" || strings.Contains(src, ".div") {
-			fail("valid element unreachable: name=div is a keyword (compile error)", out.CompileErr.Error())
-			return
-		}
 		fail("compile-error", out.CompileErr.Error())
 		return
 	case "error":
@@ -334,9 +330,7 @@ func c02Run(ctx *Ctx, c c02Case) {
 				out3 := evalWith(src3, input, nil)
 				ctx.Eval(c.Res+"|"+src3, nontrivial, "negative:mismatched-root")
 				if out3.kind() != "empty" {
-					if !(out3.kind() == "cerror" && strings.Contains(src3, ".div")) {
-						ctx.Fail("nav mismatched root type does not yield empty: "+out3.kind(), fmt.Sprintf("%s on a %s: %s", src3, typ, out3))
-					}
+					ctx.Fail("nav mismatched root type does not yield empty: "+out3.kind(), fmt.Sprintf("%s on a %s: %s", src3, typ, out3))
 				}
 			}
 			// .value of date/time primitives is the FHIR string
@@ -368,29 +362,10 @@ func c02Run(ctx *Ctx, c c02Case) {
 			}
 		}
 		// negative: names that are not elements of the parent type
-		if homog && !viaChoiceOther && pi%3 == 0 && !strings.Contains("."+strings.Join(names, ".")+".", ".div.") {
+		if homog && !viaChoiceOther && pi%3 == 0 {
 			c02BadNames(ctx, c, typ, steps, want, input)
 		}
 	}
-}
-
-// c02IndexedSteps renders the path to n with an indexer on every repeated step
-// selected by mask (bit i = step i).  The index is the position in the flattened
-// collection of that step, which equals the list index when all earlier steps are
-// indexed; for the mixed spelling the model re-evaluates the result anyway.
-func c02IndexedSteps(n *Node, mask int) []step {
-	var chain []*Node
-	for x := n; x.Parent != nil; x = x.Parent {
-		chain = append([]*Node{x}, chain...)
-	}
-	steps := make([]step, len(chain))
-	for i, x := range chain {
-		steps[i] = step{x.Name, -1}
-		if x.IsList && (mask>>(uint(i)%16))&1 == 1 {
-			steps[i].Idx = x.Index
-		}
-	}
-	return steps
 }
 
 func c02TemporalValue(ctx *Ctx, src string, out evalOut, want []*Node) {
@@ -477,6 +452,6 @@ func TestC02(t *testing.T) {
 		"a case is one generated resource (type drawn uniformly from the 146 R4 types, fields populated by a descriptor walk); every element path of its google/fhir JSON rendering is evaluated un-indexed, fully indexed, mixed, without the root type, with a mismatching root, with `.value` on date/time leaves and with non-element names appended; an evaluation is one (resource, source string); non-trivial = path length ≥ 2 selecting ≥ 1 node (or a negative program on a non-empty parent); distinct = FNV-64 of (resource text, source)",
 		"google/fhir jsonformat defines the FHIR JSON rendering", "un-indexed spellings are asserted only where every prefix selects nodes of one type (the statement is silent on heterogeneous collections)", "fraction digits beyond milliseconds are outside System DateTime/Time")
 	runProperty(t, r,
-		Stage[c02Case]{Name: "resources", Gen: c02Gen, Run: c02Run, N: pick(200, 5000)},
+		Stage[c02Case]{Name: "resources", Gen: c02Gen, Run: c02Run, N: pick(300, 4000)},
 	)
 }
